@@ -82,6 +82,34 @@ def gen(rng, tier):
         tot = sum(cnt.values())
         nb = rng.choice([0, 1, max(1, tot // 2), max(0, tot - 1), tot, tot + 1])
         yield Case("rnd", ["rarefy"] + base + [nb, ";".join("%s=%d" % kv for kv in cnt.items())], n >= 2 and 0 < nb < tot, "rarefy")
+    # tall / wide alignments: code paths chosen by size (a fast path for small samples of large sets, sorting
+    # thresholds, buffers) must replay exactly and keep the promises as well
+    for _ in range(N // 10):
+        alpha_id = rng.choice([1, 0])
+        alpha = AA if alpha_id == 0 else NT
+        if rng.random() < 0.6:
+            n, L = rng.choice([17, 32, 33, 48, 64, 80]), rng.choice([1, 2, 3, 5])
+        else:
+            n, L = rng.choice([2, 3, 5]), rng.choice([40, 64, 100, 130, 257])
+        rows = [("s%d" % i, "".join(rng.choice(alpha + "-") for _ in range(L))) for i in range(n)]
+        seed = rng.randint(0, 2 ** 31 - 1)
+        base = [seed, alpha_id, rows_str(rows)]
+        yield Case("rnd", ["shuffle"] + base, True, "shuffle-large")
+        yield Case("rnd", ["sample"] + base + [rng.choice([1, 2, 3, 4, n // 16, n // 16 + 1, n // 2, n])], True, "sample-large")
+        yield Case("rnd", ["subalign"] + base + [rng.choice([1, 2, L // 16, L // 2, L - 1, L]), rng.randint(0, 1)], True, "subalign-large")
+        yield Case("rnd", ["bootstrap"] + base + [rng.choice(FR)], True, "bootstrap-large")
+        yield Case("rnd", ["rogue"] + base + [rng.choice(FR), rng.choice(FR)], True, "rogue-large")
+        yield Case("rnd", ["shufflesites"] + base + [rng.choice(FR), rng.choice(FR), rng.randint(0, 1)], True, "shufflesites-large")
+        yield Case("rnd", ["swap"] + base + [rng.choice(FR), rng.choice(["-1", "1/2", "1/3"])], True, "swap-large")
+        yield Case("rnd", ["recombine"] + base + [rng.choice(["1/2", "1/4", "1/10"]), rng.choice(FR), rng.randint(0, 1)], True, "recombine-large")
+        yield Case("rnd", ["mutate"] + base + [rng.choice(FR)], True, "mutate-large")
+        yield Case("rnd", ["addgaps"] + base + [rng.choice(FR), rng.choice(FR)], True, "addgaps-large")
+    # small samples of tall alignments, many runs from one seed: every run must return distinct original rows
+    for _ in range(4 if tier == "quick" else 40):
+        n = rng.choice([32, 48, 64])
+        rows = [("s%d" % i, "".join(AA[(i // 20 ** k) % 20] for k in range(3))) for i in range(n)]
+        # columns of `rows` are pairwise distinct for n >= 21 (base-20 digits of the row number)
+        yield Case("rnd", ["support", rng.randint(0, 2 ** 31 - 1), 0, rows_str(rows), "sample", rng.choice([2, 3]), 4000], True, "support-sample-tall")
     # distributional support: canonical alignments with distinct rows and columns, K independent runs per case
     M = 12 if tier == "quick" else 120
     for _ in range(M):
